@@ -44,6 +44,10 @@ def geometry(spec):
         ub = [10.0 if i % 2 == 0 else 6.0 for i in range(D)]
         plb = [0.05 if i % 2 == 0 else -2.0 for i in range(D)]
         pub = [5.0 if i % 2 == 0 else 3.0 for i in range(D)]
+    elif g == "logdec":
+        # power-of-ten log boxes (spec["decades"][i] = exponents of lb, plb, pub, ub): the images of the bounds sit exactly on the mesh
+        dec = spec.get("decades") or [[-2, -1, 0, 1]] * D
+        lb = [10.0 ** d[0] for d in dec]; plb = [10.0 ** d[1] for d in dec]; pub = [10.0 ** d[2] for d in dec]; ub = [10.0 ** d[3] for d in dec]
     elif g == "unbounded":
         lb, ub, plb, pub = [-inf] * D, [inf] * D, [-2.0] * D, [3.0] * D
     elif g == "mixed_unbounded":
@@ -252,4 +256,6 @@ def small_options(rng, D, mode, quick=True):
         o["search_grid_number"] = rng.choice([3, 5])
     if rng.random() < 0.1:
         o["fun_eval_start"] = rng.choice([1, 2 * D + 1, 16])
+    if rng.random() < 0.12:
+        o["noise_size"] = rng.choice([1e-3, 0.5, 1.0])          # basic option: global noise estimate (a scalar)
     return o
